@@ -52,6 +52,9 @@ CKeyP(kb, nek)   == (1024 * kb) \div CKeyRec(nek)
 EKeyRec          == 16 + 4 + 5
 EKeyP(kb)        == (1024 * kb) \div EKeyRec
 
+\* the largest number of encoding keys of one content key that still fits a page (the count is one byte)
+MaxNek(kb)       == Min2(255, ((1024 * kb) - CKeyRec(0)) \div 16)
+
 \* populations around the multiples of a page capacity P
 Boundary(P) == {x \in {0, 1, 2, P - 1, P, P + 1, 2 * P, 2 * P + 1} : x >= 0}
 
@@ -263,6 +266,12 @@ Expect(h, m, sp, fl, a) ==
             ELSE IF fl \in {"p2e", "p2e2"} THEN One(hit /\ v.inenc /\ v.named, v.ek)
             ELSE One(hit /\ v.inenc /\ v.named, v.ck \o ":" \o v.ek \o ":" \o v.size)   \* info
        [] h.kind = "tvfs" -> IF fl = "rp" THEN One(hit, v.t3) ELSE One(hit, v.t4)                 \* enum, chain
+
+\* can the configured format hold the population at all?  If not the builder has to refuse it.
+Representable(h) ==
+  CASE h.kind = "enc"  -> h.nek <= MaxNek(h.kbc)          \* a content-key record must fit its page
+    [] h.kind = "aidx" -> h.vp # "over"                   \* an offset must fit the offset field
+    [] OTHER -> TRUE
 
 \* what the build event reports when everything inserted is stored
 ExpectCount(h) == IF h.kind = "enc" THEN h.n * 100000 + h.m ELSE h.n
